@@ -337,6 +337,23 @@ pub fn fetch(dir: &Path, coin: &str, start: u64, end: Option<u64>, verify: bool,
         Err(e) => Err(format!("{}", e)),
     }).collect())
 }
+// ---- AuxPoW sections (C12) ----
+pub fn merkle_branch(rng: &mut Rng, n: usize) -> Vec<u8> {
+    let mut v = compact(n as u64);
+    for _ in 0..n { v.extend(rng.bytes(32)); }
+    v.extend_from_slice(&(rng.next() as u32).to_le_bytes());
+    v
+}
+pub fn aux_section(rng: &mut Rng, segwit_coinbase: bool, n1: usize, n2: usize) -> Vec<u8> {
+    let mut cb = TxSpec::new(vec![TxIn::coinbase(rng.next() as u32)], vec![TxOut::new(25_0000_0000, p2pkh_script(&[3; 20])), TxOut::new(0, vec![0x6a, 0x24, 0xaa, 0x21, 0xa9, 0xed])]);
+    cb.inputs[0].script_sig = rng.bytes(60);
+    if segwit_coinbase { cb.witness = Some(vec![vec![vec![0u8; 32]]]); }
+    let mut v = cb.ser();
+    v.extend(rng.bytes(32));                       // parent block hash
+    v.extend(merkle_branch(rng, n1)); v.extend(merkle_branch(rng, n2));
+    v.extend(rng.bytes(80));                       // parent header
+    v
+}
 pub fn csv_lines(p: &PathBuf) -> Vec<String> {
     fs::read_to_string(p).map(|s| s.lines().map(|l| l.to_string()).collect()).unwrap_or_default()
 }
